@@ -284,6 +284,28 @@ pub fn run(ctx: &Ctx, rep: &mut Report) {
         let start = *rng.pick(&[0usize, 0, 1, 7, 1000]);
         run_case(rep, &cfg, *rng.pick(&FRONTS), &recipe, start, true);
     }
+    // long streams (>= 2^16 samples) with a seconds-based seek table at low sample rates: many
+    // seek intervals, remaining-sample counts that do not fit 16 bits, totals that are exact
+    // multiples of 65536 or just beyond one; declared and undeclared
+    for k in 0..6u64 {
+        let mut cfg = EncCfg::default_for(if k % 3 == 2 { 2 } else { 1 }, *rng.pick(&[8u32, 16]), *rng.pick(&[100u32, 1000, 8000, 8000, 11025]));
+        cfg.block_size = *rng.pick(&[17u16, 576, 1024, 4096, 4096, 4608]);
+        cfg.max_lpc = None;
+        cfg.max_part = 2;
+        cfg.seek = SeekPol::Seconds(*rng.pick(&[1u8, 1, 2, 3]));
+        cfg.declare_total = (k + ctx.shard) % 3 != 0;
+        cfg.padding = *rng.pick(&[Pad::Default, Pad::Size(65536), Pad::None]);
+        let base = 65536 * rng.usize(1, 3);
+        let frames = match rng.below(4) {
+            0 => base,
+            1 => base + rng.usize(1, cfg.block_size as usize),
+            2 => base + cfg.block_size as usize + rng.usize(0, 200),
+            _ => base - rng.usize(1, 5000),
+        };
+        let recipe = PcmRecipe { signal: *rng.pick(&[flacref::pcm::Signal::Silence, flacref::pcm::Signal::Constant, flacref::pcm::Signal::Sine, flacref::pcm::Signal::NoiseLow]), seed: rng.next(), frames };
+        rep.count("long_seconds_policy_case", if cfg.declare_total { "declared" } else { "undeclared" });
+        run_case(rep, &cfg, *rng.pick(&FRONTS), &recipe, 0, false);
+    }
     // more frames than a seek table can hold (undeclared length, table carved from padding)
     if ctx.shard == 0 {
         let mut cfg = EncCfg::default_for(1, 8, 44100);
